@@ -97,6 +97,13 @@ def accept_guard(ctx, repo):
     ctx.ob("F25", s.where, "tolerance is never rebound", ok)
 
 
+def _ancestors(n):
+    p = parent(n)
+    while p is not None:
+        yield p
+        p = parent(p)
+
+
 def parallel_lists(ctx, repo):
     ctx.rule("PAR", "lists that travel in parallel are filtered with the same index list (glyphs / max_err in cu2qu.ufo)", floor=2)
     m = repo.mod("cu2qu/ufo.py")
@@ -112,6 +119,20 @@ def parallel_lists(ctx, repo):
     pass_ = [c for c in calls_in(f.node) if call_name(c) == "_segments_to_quadratic"]
     ok = len(pass_) == 1 and [norm(a) for a in pass_[0].args][:2] == ["segments", "max_err"]
     ctx.ob("PAR", f.where, "per-location segments converted with the per-master tolerance list", ok)
+    # lists filled side by side by .append and then passed together grow under the same conditions
+    for q, fn in sorted(m.funcs.items()):
+        for call in calls_in(fn.node):
+            args = [a.id for a in call.args if isinstance(a, ast.Name)]
+            if len(args) < 2:
+                continue
+            apps = {}
+            for c in calls_in(fn.node):
+                if isinstance(c.func, ast.Attribute) and c.func.attr == "append" and isinstance(c.func.value, ast.Name) and c.func.value.id in args[:2]:
+                    apps.setdefault(c.func.value.id, []).append(tuple((norm(t), pol) for t, pol in guard_conditions(c)) + (id(next((p for p in _ancestors(c) if isinstance(p, (ast.For, ast.While))), None)),))
+            if len(apps) == 2 and all(len(v) == 1 for v in apps.values()):
+                a, b = [apps[k][0] for k in args[:2]]
+                ok = a == b
+                ctx.ob("PAR", fn.where, f"{args[0]} and {args[1]} (passed together to {call_name(call)}) are appended under the same conditions", ok, "" if ok else f"`{args[0]}` grows under {[t for t, _ in a[:-1]]} but `{args[1]}` under {[t for t, _ in b[:-1]]}: the two lists stop lining up")
     s = m.func("_segments_to_quadratic")
     c = [x for x in calls_in(s.node) if call_name(x) == "curves_to_quadratic"]
     ok = len(c) == 1 and norm(c[0].args[1]) == "max_err"
